@@ -17,6 +17,12 @@ GUARD = "CISCO_LIBSRTP_VERIF"
 SAN_FLAGS = "-O1 -g -fsanitize=address,undefined -fno-sanitize-recover=all -fno-omit-frame-pointer"
 
 GENERATED = ("Constants.v", "GlobalsGen.v")
+# The regenerated call-graph table GlobalsGen.v changes with almost every edit of /repo, but only C19's theorems depend on
+# it (Globals.v, Properties_C19.v; Interleave.v is self-contained).  They are compiled in a small build of their own
+# (build_globals), so that an edit of /repo that leaves the constants alone re-checks C19's table theorems in seconds
+# and does not recompile the 40 k-line development that does not mention the table.
+GLOBALS_CONE = ("GlobalsGen.v", "Globals.v", "Properties_C19.v")
+GLOBALS_EXTRA = ("Interleave.v",)
 
 
 def sh(cmd, cwd=None, timeout=None, env=None, inp=None):
@@ -168,8 +174,9 @@ def build_coq(cdir, model_only=False):
     model_only: compile only the cone of Driver.v (the executable model) — used for the configurations
     other than the internal-crypto one, whose generated Constants.v carries other back-end flags: the
     theorems are about the internal configuration, the model runs in every configuration."""
-    gens = [os.path.join(cdir, g) for g in GENERATED if os.path.exists(os.path.join(cdir, g))]
-    fp = _hash_files(coq_sources() + [os.path.join(VERIF, "harness/mdrv.ml")] + gens, "model-only" if model_only else "")
+    gens = [os.path.join(cdir, g) for g in GENERATED if g not in GLOBALS_CONE and os.path.exists(os.path.join(cdir, g))]
+    fp = _hash_files([f for f in coq_sources() if os.path.basename(f) not in GLOBALS_CONE] + [os.path.join(VERIF, "harness/mdrv.ml")] + gens,
+                     "model-only" if model_only else "")
     qdir = os.path.join(CACHE, f"q{'m' if model_only else ''}-{fp}")
     with Lock("q"):
         if os.path.exists(os.path.join(qdir, "DONE")):
@@ -179,7 +186,7 @@ def build_coq(cdir, model_only=False):
         os.makedirs(qdir)
         cq = os.path.join(qdir, "coq")
         shutil.copytree(os.path.join(VERIF, "coq"), cq,
-                        ignore=shutil.ignore_patterns("*.vo", "*.vok", "*.vos", "*.glob", "*.aux", ".*", "WIP.txt", *wip_files()))
+                        ignore=shutil.ignore_patterns("*.vo", "*.vok", "*.vos", "*.glob", "*.aux", ".*", "WIP.txt", *wip_files(), *GLOBALS_CONE))
         for g in gens:
             shutil.copy(g, os.path.join(cq, os.path.basename(g)))
         vs = []
@@ -219,6 +226,40 @@ def build_coq(cdir, model_only=False):
         open(os.path.join(qdir, "DONE"), "w").write(time.ctime())
         prune("qm-" if model_only else "q-", 3)
     return qdir, status
+
+
+def build_globals(cdir):
+    """the small build of C19's table theorems: GlobalsGen.v (regenerated from /repo), Globals.v, Properties_C19.v, Interleave.v.
+    Returns (gdir, status) in the same shape as build_coq."""
+    srcs = [os.path.join(VERIF, "coq", f) for f in GLOBALS_CONE[1:] + GLOBALS_EXTRA]
+    gen = os.path.join(cdir, "GlobalsGen.v")
+    fp = _hash_files(srcs + [gen])
+    gdir = os.path.join(CACHE, f"g-{fp}")
+    with Lock("g"):
+        if os.path.exists(os.path.join(gdir, "DONE")):
+            os.utime(gdir)
+            return gdir, json.load(open(os.path.join(gdir, "status.json")))
+        shutil.rmtree(gdir, ignore_errors=True)
+        cq = os.path.join(gdir, "coq")
+        os.makedirs(cq)
+        for f in srcs + [gen]:
+            shutil.copy(f, os.path.join(cq, os.path.basename(f)))
+        vs = sorted("coq/" + os.path.basename(f) for f in srcs + [gen])
+        with open(os.path.join(gdir, "_CoqProject"), "w") as f:
+            f.write("-Q coq Srtp\n" + "\n".join(vs) + "\n")
+        r = sh("coq_makefile -f _CoqProject -o Makefile", cwd=gdir, timeout=60)
+        if r.returncode != 0:
+            raise BuildError("coq_makefile failed: " + r.stderr)
+        t0 = time.time()
+        r = sh(f"timeout 1200 make -k -j{JOBS} TIMED=1 COQC='timeout 900 coqc' 2>&1", cwd=gdir, timeout=1300)
+        open(os.path.join(gdir, "make.log"), "w").write(r.stdout)
+        status = {os.path.relpath(v, "coq"): os.path.exists(os.path.join(gdir, v + "o")) for v in vs}
+        status["_make_s"] = round(time.time() - t0, 1)
+        status["_mdrv"] = True
+        json.dump(status, open(os.path.join(gdir, "status.json"), "w"), indent=1)
+        open(os.path.join(gdir, "DONE"), "w").write(time.ctime())
+        prune("g-", 4)
+    return gdir, status
 
 
 # ---------------------------------------------------------------------------
